@@ -226,3 +226,7 @@ Proof.
                (a <? ext * 2048 + (zlen d + 2047) / 2048 * 2048 - 1 + 1)) with false by lia.
       reflexivity.
 Qed.
+
+Print Assumptions ip_apply_writes_stable.
+Print Assumptions ip_apply_writes_in.
+Print Assumptions ip_data_writes_den.
